@@ -6,6 +6,7 @@ the virtual clock with cpu=0) compared with a reference schedule.
 from hypothesis import strategies as st
 
 from vf.evidence import Outcome
+from vf.gen import weighted
 from vf.world import World, Violation, advance, settle
 from vf.boot import loop
 
@@ -15,7 +16,7 @@ from scales.timer_queue import TimerQueue
 ID = 'C10'
 LEVEL = 'exploration'
 RULE = ('Hypothesis-generated histories of schedule(delta, action kind) / schedule_same(i) / '
-        'cancel(i) / advance(dt) ops (<= 50 ops) for resolutions 0.25, 1 (times exact binary '
+        'cancel(i) / advance(dt) ops (<= 50 ops; deadlines from 20 units in the past to 6000 units - more than five minutes in three of the four modes - ahead) for resolutions 0.25, 1 (times exact binary '
         'fractions), 0.01 (1 ms grid, 1 ms tolerance) and 0, interpreted against the real '
         'TimerQueue on a virtual clock and against a reference schedule; actions may themselves '
         'schedule or cancel. Non-trivial = a new earliest deadline was scheduled while the worker '
@@ -49,13 +50,16 @@ def strategy(tier):
       st.tuples(st.just('cancel'), st.integers(0, 30)).map(list),
       st.just(['raise']),
   )
-  op = st.one_of(
-      st.tuples(st.just('schedule'), st.integers(-8, 80), action).map(list),
-      st.tuples(st.just('schedule'), st.integers(-8, 80), st.just(['plain'])).map(list),
-      st.tuples(st.just('schedule'), st.integers(-20, 0), st.just(['plain'])).map(list),
-      st.tuples(st.just('schedule_same'), st.integers(0, 30)).map(list),
-      st.tuples(st.just('cancel'), st.integers(0, 30)).map(list),
-      st.tuples(st.just('advance'), st.integers(0, 40)).map(list),
+  op = weighted(
+      (6, st.tuples(st.just('schedule'), st.integers(-8, 80), action).map(list)),
+      (6, st.tuples(st.just('schedule'), st.integers(-8, 80), st.just(['plain'])).map(list)),
+      (5, st.tuples(st.just('schedule'), st.integers(-20, 0), st.just(['plain'])).map(list)),
+      # far deadlines and long quiet periods (more than five minutes on the queue's clock)
+      (1, st.tuples(st.just('schedule'), st.sampled_from([4900, 5300, 6000]), st.just(['plain'])).map(list)),
+      (1, st.tuples(st.just('advance'), st.sampled_from([3000, 5000])).map(list)),
+      (5, st.tuples(st.just('schedule_same'), st.integers(0, 30)).map(list)),
+      (5, st.tuples(st.just('cancel'), st.integers(0, 30)).map(list)),
+      (6, st.tuples(st.just('advance'), st.integers(0, 40)).map(list)),
   )
   return st.fixed_dictionaries({
       'resolution': st.sampled_from(sorted(MODES)),
